@@ -189,6 +189,16 @@ func (in *Interp) clock(t *TimeObj) *[4]*Term {
 	ns := IntVarR(tName("nanosecond", k), big.NewInt(0), big.NewInt(999999999))
 	sum := iadd(iadd(imulc(h, 3600000000000), imulc(mi, 60000000000)), iadd(imulc(sc, 1000000000), ns))
 	in.assume(Eq(sum, t.nanos))
+	// implied lemmas in functional form: they let the term rewriter (and the
+	// solver) see the sub-second part and the second of the day directly
+	// (added only where the rewriter reduces them to something without a fresh
+	// div/mod of the whole count, which would make the solver's job harder)
+	if l := imod(t.nanos, 1000000000); l.op != "mod" || l.args[0] != t.nanos {
+		in.assume(Eq(ns, l))
+	}
+	if l := idiv(t.nanos, 1000000000); l.op != "div" || l.args[0] != t.nanos {
+		in.assume(Eq(iadd(iadd(imulc(h, 3600), imulc(mi, 60)), sc), l))
+	}
 	t.clk = &[4]*Term{h, mi, sc, ns}
 	return t.clk
 }
